@@ -122,6 +122,18 @@ class CallMixin(object):
             raise Unsupported('call form %s at line %s' % (tag, line))
 
     # ---------------------------------------------------------------- repository functions
+    def simple_helper(self, fdef):
+        bad = (ast.For, ast.While, ast.Yield, ast.YieldFrom, ast.Try, ast.With, ast.FunctionDef, ast.Lambda, ast.ClassDef, ast.Global, ast.Nonlocal,
+               ast.ListComp, ast.GeneratorExp, ast.DictComp, ast.SetComp)
+        if fdef.decorator_list or fdef.args.vararg or fdef.args.kwarg:
+            return False
+        n = 0
+        for x in ast.walk(fdef):
+            if x is not fdef and isinstance(x, bad):
+                return False
+            n += isinstance(x, ast.stmt)
+        return n <= 25
+
     def call_repo(self, f, impl, args, kw, st, n):
         """a function/method of the repository: by contract if one is registered, inlined if the
         caller's spec lists it under `inline`, else unsupported"""
@@ -159,7 +171,17 @@ class CallMixin(object):
         if qual in self.spec.inline or short in self.spec.inline or '%s.%s' % (getattr(impl[1], 'name', ''), short) in self.spec.inline:
             yield from self.inline_call(fdef, cls, recv, args, kw, st, n)
             return
-        raise Unsupported('call of %s at line %s: callee has no contract and is not listed for inlining'
+        if tag == 'repofn' and self.simple_helper(fdef) and getattr(self, '_auto_depth', 0) < 3:
+            # a small module-level helper without a contract (typically code factored out of the function under contract): executed as the
+            # real code it is.  Only straight-line / branching bodies; anything with loops, generators, try or nested scopes needs a contract.
+            self._auto_depth = getattr(self, '_auto_depth', 0) + 1
+            try:
+                self.inlined.add(qual + ' (auto)')
+                yield from self.inline_call(fdef, cls, recv, args, kw, st, n)
+            finally:
+                self._auto_depth -= 1
+            return
+        raise Unsupported('call of %s at line %s: callee has no contract and is not listed for inlinin'
                           % (qual, getattr(n, 'lineno', '?')))
 
     def bind_args(self, fdef, recv, args, kw, line):
